@@ -4,6 +4,8 @@ import (
 	"github.com/go-kid/ioc/util/sort2"
 	"github.com/go-kid/strings2"
 	"strings"
+	"unicode"
+	"unicode/utf8"
 )
 
 type (
@@ -55,7 +57,12 @@ func (m TagArg) Add(argType ArgType, val ...string) {
 
 func formatArgType(argType ArgType) ArgType {
 	t := string(argType)
-	return ArgType(strings.ToUpper(t[:1]) + t[1:])
+	//the first letter is a whole rune: upper-casing the first byte of a multi-byte letter corrupts the name
+	r, size := utf8.DecodeRuneInString(t)
+	if r == utf8.RuneError {
+		return argType
+	}
+	return ArgType(string(unicode.ToUpper(r)) + t[size:])
 }
 
 func (m TagArg) Find(argType ArgType) ([]string, bool) {
